@@ -777,6 +777,17 @@ def header_version(ctx, rule, modname):
         ctx.error(rule, 'header version (%s): %d candidate sites' % (modname, len(srcs)))
         return
     node, text = srcs[0]
+    # `grid.version` is the own version only if the property says so
+    try:
+        vp = m.func('grid', 'Grid.version')
+        vr = [norm(n.value) for n in walk_no_nested(vp) if isinstance(n, ast.Return)]
+        if any('nearest' in r for r in vr):
+            ctx.violation(rule, 'hszinc/grid.py::Grid.version', '; '.join(vr),
+                          'a grid of version 2.5 reports and is written with version %s: Grid.version does not return the grid\'s own '
+                          'version' % vr, 'Grid.version returns the nearest official version', file='hszinc/grid.py',
+                          line=vp.lineno, engine='E7')
+    except AnalysisError:
+        pass
     ok_values = {'%s.version' % g, '%s._version' % g}
     text = resolve_local(fn, text, params=ok_values)
     verdict = version_source(text, ok_values)
@@ -946,6 +957,23 @@ def token_use_rule(ctx, rule, modname, floor=4):
             continue
         # argument order of the constructor calls
         act = G.action_returns(node.action)[0]
+        # words compared with a token must be words the grammar can produce for that token
+        for cmp_ in ast.walk(act):
+            if isinstance(cmp_, ast.Compare) and len(cmp_.ops) == 1 and isinstance(cmp_.ops[0], (ast.Eq, ast.NotEq)) \
+                    and isinstance(cmp_.comparators[0], ast.Constant) and isinstance(cmp_.comparators[0].value, str) \
+                    and 'toks[' in norm(cmp_.left):
+                word = cmp_.comparators[0].value
+                kinds_ = set()
+                for c2 in ast.walk(act):
+                    if isinstance(c2, ast.Call) and isinstance(c2.func, ast.Name):
+                        kinds_.add(c2.func.id)
+                if word not in kinds_:
+                    ctx.violation(rule, '%s::%s' % (F_, node.label()), norm(cmp_),
+                                  'the action of %s tests a token against %r, but the value it builds in that case is one of %s: '
+                                  'the test never holds, so e.g. Bin("text/plain") is read as an XStr of type "Bin"'
+                                  % (node.label(), word, sorted(kinds_)),
+                                  'a parse action compares a token with a word (%r) that is not the head it builds' % word,
+                                  file=F_, line=node.lineno, engine='E2')
         okorder = True
         for c in ast.walk(act):
             if isinstance(c, ast.Call) and isinstance(c.func, ast.Name) and c.func.id[:1].isupper():
